@@ -73,15 +73,27 @@ Theorem C04_observers_fifo_refuted :
               h_bus (run_mode 2 (init [0; 0] false) ops) = [] /\
               P_hub 4 (model_case 2 [0; 0] ops) = Some (14, 2).
 Proof. exact observers_fifo_refuted. Qed.
-(* With that excluded (no join request and no request of an internal client is processed while a
-   "session joined" notice is still queued) every history with deliveries in publication order
-   converges: whenever the bus is empty the observers agree with the server. *)
+(* With that excluded (no session's join request is processed while a "session joined" notice for
+   that same session is still queued) every history with deliveries in publication order converges:
+   whenever the bus is empty the observers agree with the server. *)
 Theorem C04_observers_converge_fifo_guarded : forall limits gated ops,
   fifo_guarded (init limits gated) ops ->
   let st := vrun2 (init limits gated, g0) ops in
   fst st = run (init limits gated) ops /\
   (h_bus (fst st) = [] -> observers_converged (fst st) (snd st) /\ observers_converged_queued (fst st) (snd st)).
 Proof. exact observers_converge_fifo_guarded. Qed.
+(* in particular the quiescent semantics without a bound on the number of deliveries (every request
+   finds the bus empty, every delivery is the first queued publication) *)
+Theorem C04_observers_converge_fully_drained : forall limits gated ops,
+  fully_drained (init limits gated) ops ->
+  let st := vrun2 (init limits gated, g0) ops in
+  fst st = run (init limits gated) ops /\
+  (h_bus (fst st) = [] -> observers_converged (fst st) (snd st) /\ observers_converged_queued (fst st) (snd st)).
+Proof. exact observers_converge_fully_drained. Qed.
+Theorem C04_observers_fifo_example :
+  fifo_guarded (init [0; 0] false) fifo_ops /\ h_bus (run (init [0; 0] false) fifo_ops) = [] /\
+  views_of (vrun2 (init [0; 0] false, g0) fifo_ops) = [(1, Some (1, [1]), Some (0, 1)); (2, None, None)].
+Proof. exact fifo_ops_guarded. Qed.
 
 Print Assumptions C04_invariant_every_history_every_delivery_order.
 Print Assumptions C04_invariant_quiescent_histories.
@@ -95,3 +107,5 @@ Print Assumptions C04_observers_quiescent_example.
 Print Assumptions C04_observers_quiescent_without_drained_refuted.
 Print Assumptions C04_observers_fifo_refuted.
 Print Assumptions C04_observers_converge_fifo_guarded.
+Print Assumptions C04_observers_converge_fully_drained.
+Print Assumptions C04_observers_fifo_example.
